@@ -32,7 +32,10 @@ Step(e) == l <= Len(Rec) /\ ~skipping /\ Ev.ev = e /\ l' = l + 1
 
 AllTrue(q) == \A i \in 1..Len(q) : q[i]
 ArchiveRule(e) ==
-  IF e.res = "panic" THEN "C01 FAIL: compress panicked on a valid input"
+  IF sc.expect_reject THEN (IF e.res = "err" THEN "ok"
+                            ELSE IF e.res = "panic" THEN "C11 SETTINGS: compress panicked on a chunker parameter that does not fit the format"
+                            ELSE "C11 SETTINGS: a chunker parameter that does not fit the format's 32 bit fields was accepted (recorded truncated)")
+  ELSE IF e.res = "panic" THEN "C01 FAIL: compress panicked on a valid input"
   ELSE IF e.res # "ok" THEN "C01 FAIL: compress failed on a valid input"
   ELSE IF ~e.decoded THEN "C11 FORMAT: the produced file cannot be decoded as an archive"
   ELSE IF e.left_behind # <<>> THEN "C16 LEFT: compress left another file than the archive behind"
@@ -48,7 +51,7 @@ ArchiveRule(e) ==
   ELSE "ok"
 
 ArchiveEv == /\ Step("archive")
-             /\ LET r == ArchiveRule(Ev) IN IF r = "ok" THEN NoFlag /\ digest' = Ev.digest ELSE Flag(r) /\ UNCHANGED digest
+             /\ LET r == ArchiveRule(Ev) IN IF r = "ok" THEN NoFlag /\ digest' = (IF "digest" \in DOMAIN Ev THEN Ev.digest ELSE "") ELSE Flag(r) /\ UNCHANGED digest
              /\ UNCHANGED <<sc, nscen, nok>>
 CloneEv == /\ Step("clone")
            /\ IF Ev.res = "panic" THEN Flag("C01 ROUNDTRIP: clone of the produced archive panicked")
